@@ -1120,7 +1120,20 @@ impl World {
         let prev = tip.header().dosc_speed;
         let real = crate::refmath::reward_real(speed, prev, d, tip910);
         let nominal = crate::model::big_to_u128_sat(&crate::refmath::dosc_to_erg(height, &real)).min(MAX_COINVAL);
-        let erg = if self.rng.chance(1, 2) { nominal } else { nominal / 2 };
+        let mut erg = if self.rng.chance(1, 2) { nominal } else { nominal / 2 };
+        // over-claims (expected to be refused): one more than the reward, or the reward as it would be if it were measured
+        // against the DOSC speed recorded in the block of the seed coin instead of the previous block's
+        let mut over = "";
+        if self.rng.chance(1, 6) {
+            let stale = crate::model::big_to_u128_sat(&crate::refmath::dosc_to_erg(height, &crate::refmath::reward_real(speed, hdr.dosc_speed.max(1), d, tip910))).min(MAX_COINVAL);
+            if stale > nominal && self.rng.chance(2, 3) {
+                erg = stale;
+                over = "+hostile:erg-claimed-against-the-seed-block's-speed";
+            } else if nominal < MAX_COINVAL {
+                erg = nominal + 1;
+                over = "+hostile:erg=reward+1";
+            }
+        }
         let covhash = {
             let o = self.rng.usize(self.owners.len());
             self.owners[o].addr_new
@@ -1132,7 +1145,7 @@ impl World {
         let data = stdcode::serialize(&(d, proof.to_bytes())).unwrap();
         // the minted coin must be input 0
         let tx = self.complete(TxKind::DoscMint, vec![(id, cdh)], payload, data, 0)?;
-        Some((tx, format!("doscmint d={} {} speed={}", d, if tip910 { "tip910" } else { "legacy" }, speed)))
+        Some((tx, format!("doscmint d={} {} speed={}{}", d, if tip910 { "tip910" } else { "legacy" }, speed, over)))
     }
 
     /// Degenerate but well-formed requests an adversary can submit: zero-valued pool requests,
